@@ -179,6 +179,11 @@ func deleteTempFiles(directory string) error {
 	// go-cptv streams a recording into <name>.tmp until the recording is closed
 	scratch, _ := filepath.Glob(filepath.Join(directory, "*."+cptvTempExt+".tmp"))
 	matches = append(matches, scratch...)
+	// the continuous recorder keeps its recordings in a folder of its own (see SetAsConstantRecorder)
+	for _, pattern := range []string{"*." + cptvTempExt, "*." + cptvTempExt + ".tmp"} {
+		constant, _ := filepath.Glob(filepath.Join(directory, "constant-recordings", pattern))
+		matches = append(matches, constant...)
+	}
 	for _, filename := range matches {
 		if err := os.Remove(filename); err != nil {
 			return err
